@@ -5,8 +5,9 @@ quick checks of <PROP> (and extra props) against it via tools/mutant_eval.sh; re
 import json, os, re, shutil, subprocess, sys
 prop, x, dest = sys.argv[1:4]
 extra = sys.argv[4:]
-src = "/tmp/mut/%s/mutants/mutant-%s" % (prop, x)
-sid = "%s-%s" % (prop, x)
+rnd = os.environ.get("SEED_ROUND", "")
+src = "/tmp/mut/%s%s/mutants/mutant-%s" % (prop, "-" + rnd if rnd else "", x)
+sid = "%s-%s%s" % (prop, rnd, x)
 dst = "/verif/seeded/" + sid
 os.makedirs(dst, exist_ok=True)
 shutil.copy(src + "/patch.diff", dst + "/patch.diff")
